@@ -52,8 +52,52 @@ def shortcut_explained(blist):
     return res
 
 
+def selftest():
+    """vacuity guard: hand-written traces that contradict themselves must be rejected, clause by clause"""
+    import json
+    import os
+    import tempfile
+
+    def ev(call, **kw):
+        e = {"call": call, "cls": "Solver", "s": 0, "new": [], "res": [], "e": "E", "w": 4, "n": 0, "vals": [], "v": ["none", "", []],
+             "extra": False, "signed": False, "exc": "", "others": [], "approx": False, "shortcut": False}
+        e.update(kw)
+        return e
+
+    def bv(v):
+        return ["bv", str(v), [(v >> i) & 1 for i in range(4)]]
+    T = ["True"]
+    cases = [
+        ("eval-outside-exhaustive", [ev("eval", n=5, vals=[bv(1), bv(2)]), ev("add"), ev("eval", n=5, vals=[bv(3)])]),
+        ("eval-count", [ev("eval", n=5, vals=[bv(1), bv(2)]), ev("eval", n=5, vals=[bv(1)])]),
+        ("optimum-beaten-by-witness", [ev("eval", n=1, vals=[bv(1)]), ev("min", vals=[bv(2)])]),
+        ("optimum-outside-bounds", [ev("max", vals=[bv(5)]), ev("add"), ev("max", vals=[bv(6)])]),
+        ("unsat-after-sat", [ev("eval", n=1, vals=[bv(1)]), ev("satisfiable", vals=[["bool", "False", []]])]),
+        ("answer-after-unsat", [ev("satisfiable", vals=[["bool", "False", []]]), ev("add"), ev("min", vals=[bv(0)])]),
+        ("solution-false-for-witness", [ev("eval", n=1, vals=[bv(7)]), ev("solution", v=bv(7), vals=[["bool", "False", []]])]),
+        ("", [ev("eval", n=5, vals=[bv(1), bv(2)]), ev("add"), ev("eval", n=5, vals=[bv(2)]), ev("min", vals=[bv(2)]),
+              ev("branch", res=[1], new=[1]), ev("add", s=1), ev("satisfiable", s=1, vals=[["bool", "False", []]]),
+              ev("max", vals=[bv(2)])]),
+    ]
+    d = tempfile.mkdtemp(prefix="kns-", dir=C.scratch())
+    path = os.path.join(d, "selftest.ndjson")
+    with open(path, "w") as f:
+        for i, (_, evs) in enumerate(cases):
+            f.write(json.dumps({"tid": f"selftest-{i}", "maxid": 1, "ev": evs}) + "\n")
+    rc, out = C.run_tlc("TraceKnowledge.tla", cfg="Empty.cfg", env={"TRACE_FILE": path})
+    b, done = C.parse_event_output(out)
+    if done != len(cases):
+        raise C.MachineryError("TraceKnowledge self-test did not complete:\n" + out[-2000:])
+    for i, (clause, _) in enumerate(cases, 1):
+        got = {c for (j, c, _x) in b if j == i}
+        if (clause and clause not in got) or (not clause and got):
+            raise C.MachineryError(f"Knowledge.tla self-test {i}: expected {clause or 'acceptance'}, TLC reported {sorted(got)}")
+    return len(cases)
+
+
 def stream(R, pid, tier, seed):
     """returns coverage dict; adds violations to R"""
+    n_self = selftest()
     n = 8
     per = 12 if tier == "quick" else 150
     jobs = [{"kind": "repo", "tests": ["tests"]}]
@@ -83,4 +127,5 @@ def stream(R, pid, tier, seed):
                              "history": [{x: e[x] for x in ("call", "s", "e", "n", "vals", "v", "extra", "signed", "exc", "res")}
                                          for e in tr["ev"][:k]][-40:]})
     return {"repo_test_traces": rst["events"], "repo_test_calls": rst["calls"], "repo_tests_pytest_rc": rst.get("pytest_rc"),
-            "wide_histories": wst["events"], "wide_calls": wst.get("calls", 0), "knowledge_violations": n_v}
+            "wide_histories": wst["events"], "wide_calls": wst.get("calls", 0), "knowledge_violations": n_v,
+            "validator_selftest_traces": n_self}
